@@ -318,3 +318,36 @@ def judge_parse(ctx, case, cfgd, cfg, T, inp, offset=0, label="parse", sig_prefi
         else:
             ctx.event(f"agree_decode_err:{label}")
     return r, exp
+
+
+# ---------------------------------------------------------------------------------------------------
+# non-structure types used directly (cs.uint32(stream), cs.char[8](...), enums, arrays, unions)
+
+DIRECT_TEXT = ("enum E : uint16 { EA, EB = 5 };\nflag FL : uint8 { F1, F2 };\nstruct S { uint8 a; uint24 b; };\n"
+               "union U { uint32 w; uint8 b[4]; };\nstruct T { uint8 x; };\n")
+
+
+def direct_kinds():
+    from .gen import F, L_NULL, L_fixed, N_array, N_char, N_float, N_int, N_leb, N_struct, N_wchar
+
+    enode = {"k": "enum", "name": "E", "flag": False, "base": "uint16", "members": [["EA", 0], ["EB", 5]], "src": []}
+    fnode = {"k": "enum", "name": "FL", "flag": True, "base": "uint8", "members": [["F1", 1], ["F2", 2]], "src": []}
+    snode = N_struct([F("a", N_int("uint8")), F("b", N_int("uint24"))], name="S", decl="top")
+    unode = N_struct([F("w", N_int("uint32")), F("b", N_array(N_int("uint8"), L_fixed(4)))], name="U", union=True,
+                     decl="top")
+    return [
+        ("uint32", N_int("uint32"), lambda cs: cs.uint32), ("int24", N_int("int24"), lambda cs: cs.int24),
+        ("uint128", N_int("uint128"), lambda cs: cs.uint128), ("double", N_float("double"), lambda cs: cs.double),
+        ("uleb128", N_leb("uleb128"), lambda cs: cs.uleb128), ("ileb128", N_leb("ileb128"), lambda cs: cs.ileb128),
+        ("enum", enode, lambda cs: cs.E), ("flag", fnode, lambda cs: cs.FL),
+        ("char[8]", N_array(N_char(), L_fixed(8)), lambda cs: cs.char[8]),
+        ("char[]", N_array(N_char(), L_NULL), lambda cs: cs.char[None]),
+        ("wchar[3]", N_array(N_wchar(), L_fixed(3)), lambda cs: cs.wchar[3]),
+        ("wchar[]", N_array(N_wchar(), L_NULL), lambda cs: cs.wchar[None]),
+        ("uint16[4]", N_array(N_int("uint16"), L_fixed(4)), lambda cs: cs.uint16[4]),
+        ("uint16[2][3]", N_array(N_array(N_int("uint16"), L_fixed(3)), L_fixed(2)), lambda cs: cs.uint16[3][2]),
+        ("int48[]", N_array(N_int("int48"), L_NULL), lambda cs: cs.int48[None]),
+        ("E[3]", N_array(enode, L_fixed(3)), lambda cs: cs.E[3]),
+        ("S[2]", N_array(snode, L_fixed(2)), lambda cs: cs.S[2]),
+        ("S", snode, lambda cs: cs.S), ("U", unode, lambda cs: cs.U),
+    ]
